@@ -29,7 +29,7 @@ from ..model import AnalysisError, Model
 from . import builders as B
 from .builders import PRE
 
-LITERALS_QUICK = ["a", "ab", "a|", "|b", "a\\", "\\", "(", "a)", "[", "a[b", "]", "a$", "^a", "a?", "*", "a+b", "{2}", ".", "\\|", "a\\|b", "C:\\",
+LITERALS_QUICK = ["\\\\", "\\\\\\", "a", "ab", "a|", "|b", "a\\", "\\", "(", "a)", "[", "a[b", "]", "a$", "^a", "a?", "*", "a+b", "{2}", ".", "\\|", "a\\|b", "C:\\",
                   "abcdefgh", "a.b|c(d)e[f]g$", "ünï¢ødé", "a" * 12 + "|" + "b" * 12]
 LITERALS_MORE = ["a|b", "(a|b)", "(?:", "a\\\\", "\\(", "[a]", "[^", "a{1,2}", "$", "^", "\\b", "a\\b", "\\A", "(?=a)", "\n", "a\nb", "-", "a-z", "}", "?"]
 CLASS_LEAVES = [("AnyLetter", ()), ("AnyFrom", ("|", "a")), ("AnyFrom", (")", "(")), ("AnyFrom", ("]",)), ("AnyDigit", ()), ("AnyButFrom", ("$",)),
